@@ -49,6 +49,7 @@ def step (st : State) (line : String) : State × String :=
   | "mf" :: rest => let (w, o) := Drv.ModuleFwd.run st.mf rest; ({ st with mf := w }, o)
   | "gf" :: rest => (st, Drv.Formulas.run rest)
   | "gs" :: rest => (st, Drv.Formulas.runStep rest)
+  | "ge" :: rest => (st, Drv.Formulas.runCond rest)
   | "reset" :: _ => ({}, "ok")
   | _ => (st, "bad-op")
 
